@@ -367,6 +367,8 @@ def run(P, R, L):
     K.lvl1_level_loops_cover_all_levels(P, R, L)
     R.clause("ORD-18", "the garbage collection that ends a table compaction runs after the compaction released its input version")
     K.ord18_gc_after_release(P, R, L)
+    R.clause("ORD-18b", "the clean-up of a client iterator that releases its version pin also collects the files that became dead with it (known finding D22 on today's tree)")
+    blind.ord18b_client_release_collects(P, R, L)
     R.not_decided += ["directory contents for a concrete history", "crash-orphan collection beyond the guards"]
     R.assumptions += ["only the background thread and DB::open run remove_obsolete_files (single deleter)",
                       "a version handle dropped while the mutex was held continuously since acquisition is still current and is "
